@@ -61,6 +61,14 @@ def build(tier, seed, exclude):
     ch = f"AP.S.decode(sdr, {NS}, 4)"
     for shape in ("indep", "forkjoin", "split", "splitcomb"):
         for kk in (0, 1, 2, 3):
+            if shape in ("indep", "forkjoin"):
+                # no split in these shapes: the schedule is the only variable
+                g.cond(f"h_{shape}_k{kk}", "sd: int", pre[:1], f"""
+                    sdr = T.real(sd)
+                    err = _c17({shape!r}, 1, {ch}, {None if kk == 0 else kk})
+                    return T.fail(err) if err else True
+                """, timeout=to)
+                continue
             g.cond(f"h_{shape}_k{kk}", params, pre, f"""
                 sdr = T.real(sd)
                 err = _c17({shape!r}, T.real(n), {ch}, {None if kk == 0 else kk})
